@@ -55,7 +55,13 @@ HeadRep == (404 :> "NAME_UNKNOWN") @@ (401 :> "UNAUTHORIZED") @@ (403 :> "DENIED
 
 \* ------------------------------------------------------------------ tokens
 S(n) == [t |-> "S", v |-> ToString(n)]
-C(c) == [t |-> "C", v |-> c]
+\* Custom codes that differ from a tabled code (or from UNKNOWN) only by case: they own no status
+\* and match no standard value, but their code prefix TEXT is that of the tabled code, so the
+\* prefix token is the same (the harness uses the same list).
+CaseVariants == ("denied" :> "DENIED") @@ ("Blob_Unknown" :> "BLOB_UNKNOWN") @@
+                ("blob_upload_invalid" :> "BLOB_UPLOAD_INVALID") @@ ("Range_Invalid" :> "RANGE_INVALID") @@
+                ("name_unknown" :> "NAME_UNKNOWN") @@ ("Unsupported" :> "UNSUPPORTED") @@ ("unknown" :> "UNKNOWN")
+C(c) == [t |-> "C", v |-> IF c \in DOMAIN CaseVariants THEN CaseVariants[c] ELSE c]
 M(c) == [t |-> "M", v |-> c]
 B(x) == [t |-> "B", v |-> x]
 E == [t |-> "E", v |-> ""]
@@ -110,6 +116,15 @@ HeadErr(st) == Http(st, IF st \in DOMAIN HeadRep THEN <<Std(HeadRep[st])>> ELSE 
 Hop(t, kind, exact) ==
   IF kind = "HEAD" THEN HeadErr(Status(t))
   ELSE BodyErr(Status(t), WireCode(t), WireMsg(t, exact), WireDetail(t))
+
+\* ------------------------------------------------- listings that fail after items
+\* A backend iterator yields n items and THEN the error.  The server gathers a page: if more than
+\* p items remain it answers p items and a link, otherwise it meets the error and answers the
+\* error alone.  So a paging client (page size p at every hop) hands over p * ((n-1) div p) items
+\* and then the error - the error always arrives.
+PageDelivered(n, p) == IF n = 0 THEN 0 ELSE p * ((n - 1) \div p)
+RECURSIVE Delivered(_, _, _)
+Delivered(n, p, j) == IF j = 0 THEN n ELSE PageDelivered(Delivered(n, p, j - 1), p)
 
 \* -------------------------------------------------------------- errors.Is
 CodeIds(t) == {n.code : n \in Range(ErrNodes(t))} \cap StdCodes
